@@ -14,6 +14,7 @@ import (
 // os.Stdout.
 func (p *Program) listenForResize(done chan struct{}) {
 	sig := make(chan os.Signal, 1)
+	verifPause("resize: subscribe")
 	signal.Notify(sig, syscall.SIGWINCH)
 
 	defer func() {
